@@ -78,7 +78,9 @@ def run(ctx, spec):
     if res["stage"] != "translate":
         for name, term_fn, v_fn, shard, limit in spec["stages"]:
             sel = usable[:limit] if limit else usable
-            terms = [term_fn(c, o, rng) for c, o in sel]
+            pairs = [(co, term_fn(co[0], co[1], rng)) for co in sel]
+            sel = [co for co, t in pairs if t is not None]   # a term function returns None for cases its stage does not apply to
+            terms = [t for co, t in pairs if t is not None]
             n, mism = S.run_stage(ctx, name, terms, v_fn, shard=shard)
             ctx.log("stage %s: %d cases evaluated in Coq, %s" % (name, n, "no mismatch" if mism == [] else ("BROKEN" if mism is None else "%d cases mismatch" % len(mism))))
             if mism is None:
